@@ -10,21 +10,20 @@ from .common import judge_flags, run_cases
 
 PROP = "C09"
 SIGMA = (0.0, 1.0, 3.0, 4.0, alpha.NAN)
-THR = (None, 0.5, 1.0, 1.5, 2.0, 3.0)
+THR = (None, 0.0, 0.5, 1.0, 1.5, 2.0, 3.0)
 METHODS = ("average", "differential")
 NMAX = {"quick": 5, "thorough": 7}
 BUDGET = {"quick": 600, "thorough": 3000}
 
 META = dict(
     rule="prefix tree: every series of length 1..N over {0,1,3,4,NaN} x method in {average,differential} x "
-         "(suspect,fail) in ({None,.5,1,1.5,2,3})^2, each executed on the real spike_test (ndarray carrier; python "
+         "(suspect,fail) in ({None,0,.5,1,1.5,2,3})^2, each executed on the real spike_test (ndarray carrier; python "
          "lists with None/NaN for N<=3) and judged per point by the scalar reference; plus two long series (de Bruijn sequences holding every length-4 window, 628 and 2519 points); plus float32 / float16 carriers at magnitudes (2^24, 2^11) where arithmetic in the narrow type is inexact; plus every unknown-method "
          "spelling x thresholds x series of length<=3 (must raise ValueError). non-trivial = reference demands a "
          "SUSPECT or FAIL somewhere, or an exception",
     bounds={"quick": {"max_len": 5, "alphabet": list(SIGMA), "thresholds": list(THR)},
             "thorough": {"max_len": 7, "alphabet": list(SIGMA), "thresholds": list(THR)}},
-    not_judged=["threshold 0 (falsy = absent in the code; 'given' is ambiguous in the statement)",
-                "interior points with a missing neighbour or missing value (C02 judges them)"],
+    not_judged=["interior points with a missing neighbour or missing value (C02 judges them)"],
     assumptions=["spike magnitudes over the dyadic alphabet are exact in float64"],
 )
 
